@@ -942,7 +942,8 @@ func c11StalledLeave(c *core.Collector, x *Ctx) {
 			}
 			// the terminal goes quiet; does the server end the connection? (read until the stream ends or 25 s have passed)
 			serverEnded := false
-			raw.SetReadDeadline(time.Now().Add(25 * time.Second))
+			time.Sleep(13 * time.Second) // silent, not reading: a server with a write deadline gives the connection up in this time
+			raw.SetReadDeadline(time.Now().Add(12 * time.Second))
 			buf := make([]byte, 1<<16)
 			for {
 				_, err := raw.Read(buf)
